@@ -4,7 +4,8 @@
 //! `nthreads` threads call Server::handle_message in a loop (`iters` calls each) while one
 //! thread calls set_catalog / set_tsig_keys with generations 1..ngens-1 in order.
 //! Every record of catalog generation g carries g (SOA serial, NS target name, glue and
-//! answer addresses, TXT); key set j contains only the key named `k<j>.`.
+//! answer addresses, TXT); key set j contains only the key named `k<j>.`, except that every fourth key set is EMPTY
+//! (all keys revoked).
 //! A global sequence counter (SeqCst) brackets every call; generation g of a cell can have
 //! been current only between the call of its setter and the return of the next setter.
 //! Each response must be byte-identical to the single-threaded reference response of ONE
@@ -54,9 +55,16 @@ fn key_name(j: usize) -> Box<Name> {
     format!("k{j}.").parse().unwrap()
 }
 
+/// Every fourth key generation is the EMPTY key set (all keys revoked).
+fn empty_gen(j: usize) -> bool {
+    j % 4 == 3
+}
+
 fn keys(j: usize) -> Arc<TsigKeyMap> {
     let mut m = TsigKeyMap::new();
-    m.insert(key_name(j), (Algorithm::HmacSha256, SECRET.into()));
+    if !empty_gen(j) {
+        m.insert(key_name(j), (Algorithm::HmacSha256, SECRET.into()));
+    }
     Arc::new(m)
 }
 
@@ -196,6 +204,21 @@ fn run(mode: &str, nthreads: usize, ngens: usize, iters: usize) -> String {
             _ => return "bad request-after-last-swap-did-not-use-the-new-catalog".to_string(),
         }
     }
+    // ... and a request handled after a key-set replacement returned must use the new key set: revoke every key
+    // (the empty set), then install a key again
+    if use_keys {
+        let j = ngens; // a key no earlier generation holds
+        let status = |server: &Server<Cat>| call(server, &query(1, 0, Some(j))).map(|r| r[3] & 15);
+        server.set_tsig_keys(keys(j));
+        if status(&server) == Some(9) {
+            return "bad request-after-last-key-swap-did-not-use-the-new-key-set".to_string();
+        }
+        server.set_tsig_keys(Arc::new(TsigKeyMap::new()));
+        if status(&server) != Some(9) {
+            return "bad request-after-all-keys-were-revoked-still-verified".to_string();
+        }
+        server.set_tsig_keys(keysets[ngens - 1].clone());
+    }
     let last_cat = if swap_cat { ngens - 1 } else { 0 };
     let last_key = if use_keys { ngens - 1 } else { 0 };
 
@@ -214,12 +237,12 @@ fn run(mode: &str, nthreads: usize, ngens: usize, iters: usize) -> String {
             };
             let rcode = resp[3] & 15;
             if let Some(j0) = o.signed {
-                // verified iff the key set holds k<j0>: generation j0 exactly
+                // verified iff the key set holds k<j0>: generation j0 exactly, unless that generation is the empty set
                 let verified = rcode != 9;
                 let consistent = if verified {
-                    possible(j0, last_key, &key_call, &key_ret, o.start, o.end)
+                    !empty_gen(j0) && possible(j0, last_key, &key_call, &key_ret, o.start, o.end)
                 } else {
-                    (0..=last_key).any(|j| j != j0 && possible(j, last_key, &key_call, &key_ret, o.start, o.end))
+                    (0..=last_key).any(|j| (j != j0 || empty_gen(j)) && possible(j, last_key, &key_call, &key_ret, o.start, o.end))
                 };
                 if !consistent {
                     return format!("bad key-status verified={verified} j0={j0} interval={}..{}", o.start, o.end);
